@@ -8,6 +8,7 @@ writes every stream (fed as JSON), reads its own text back, rewrites it, and rea
 specification produces; CodecObs judges.  This file only renders tokens to bytes and back and spells mlr flags."""
 import base64
 import json
+import os
 import random
 import shlex
 import time
@@ -234,11 +235,12 @@ def features(x, p):
     cells = keys if pos == "key" else vals if pos == "value" else keys + vals
     toks = {t for c in cells for t in c}
     special = sorted(toks - PLAIN)
+    dash = lambda c: all(t == "DASH" for t in c)
     key = {"fmt": x["f"], "v": x["v"], "kind": x["k"], "why": "+".join(sorted(p["whys"])), "pos": pos,
-           "classes": "+".join(special),
            "crlf_pair": any(c[i] == "CR" and c[i + 1] == "LF" for c in cells for i in range(len(c) - 1)),
-           "has_cr": "CR" in toks, "has_lf": "LF" in toks,
-           "tsv_escaped": bool(toks & {"TAB", "LF", "CR", "BS"})}
+           "has_cr": "CR" in toks, "has_lf": "LF" in toks, "has_tab": "TAB" in toks,
+           "tsv_escaped": bool(toks & {"TAB", "LF", "CR", "BS"}),
+           "dash_row": any(all(dash(kv[1]) for kv in r) or all(dash(kv[0]) for kv in r) for r in recs)}
     if x["k"] == "tx":
         key["style"] = x["st"]
     return key
@@ -251,35 +253,41 @@ def run(tier, seed):
     mlr = vlib.build_mlr()
     thorough = tier == "thorough"
     cov = {"tlc_runs": [], "samples": []}
-    maxtok = 2
+    maxtok = 3 if thorough else 2
     states = transitions = 0
 
-    # ---- the laws on the specification, and the cases, one TLC run per format (in parallel) -----------------------
+    # ---- the laws on the specification and the cases: one TLC pass per format (CodecGen checks Laws and prints) ---
     def per_format(f):
         consts = {"MaxTok": maxtok, "F": '"%s"' % f}
-        laws = b3.check_laws("CodecMC", consts, timeout=3000, workers=1)
-        cases, g = b3.gen_cases("CodecGen", consts, timeout=3000)
-        return f, laws, cases, g
+        cfg = b3.cfg_text(consts, invariants=["Laws", "Emit"])
+        r = vlib.tlc("CodecGen", cfg="gen.cfg", extra_files={"gen.cfg": cfg}, workers=1, timeout=3000)
+        if r.error:
+            raise vlib.Inconclusive("CodecGen failed for %s: %s\n%s" % (f, r.error, r.out[-2500:]))
+        return f, r
     cases = []
-    with ThreadPoolExecutor(int(__import__("os").environ.get("VERIF_TLC_WORKERS", "4") or 4)) as ex:
-        for f, laws, cs, g in ex.map(per_format, FORMATS):
-            cov["tlc_runs"].append({"module": "CodecMC", "format": f, "MaxTok": maxtok, "distinct_states": laws.distinct,
-                                    "result": laws.violated or "no error"})
-            if laws.violated:
-                raise vlib.Inconclusive("Codec.tla violates a law of the property for %s: %s" % (f, laws.violated))
-            if laws.distinct != len(cs):
-                raise vlib.Inconclusive("CodecMC and CodecGen disagree on the number of %s cases" % f)
-            states += laws.distinct + g.distinct
-            transitions += laws.generated + g.generated
+    with ThreadPoolExecutor(max(1, min(len(FORMATS), int(os.environ.get("VERIF_JOBS", vlib.NPROC))))) as ex:
+        for f, r in ex.map(per_format, FORMATS):
+            cov["tlc_runs"].append({"module": "CodecGen (Laws of CodecMC + Emit)", "format": f, "MaxTok": maxtok,
+                                    "distinct_states": r.distinct, "result": r.violated or "no error"})
+            if r.violated:
+                raise vlib.Inconclusive("Codec.tla violates a law of the property for %s: %s" % (f, r.violated))
+            cs = [p for p in r.printed if isinstance(p, dict) and "fam" in p]
+            if r.distinct != len(cs):
+                raise vlib.Inconclusive("CodecGen printed %d of %d %s cases" % (len(cs), r.distinct, f))
+            states += r.distinct
+            transitions += r.generated
             cases.extend(cs)
     cases.sort(key=lambda x: json.dumps(x, sort_keys=True))
     total = len(cases)
     if not thorough:
-        # quick: every wide/heterogeneous case and every case of the first/last-field families, a seeded half of the rest
+        # quick: every wide/heterogeneous stream and every probe of at most one token; a seeded sample of the two-token probes
         keep = []
         for x in cases:
-            always = x["fam"] in ("X", "VB") or (x["k"] == "rt" and x["fam"] == "KB1")
-            if always or rnd.random() < 0.4:
+            small = x["fam"] == "X" or max(len(c) for r in x["s"] for kv in r for c in kv) <= 1
+            if x["k"] == "rt":
+                if small or rnd.random() < 0.13:
+                    keep.append(x)
+            elif (small and x["st"] in ("c2", "c3", "t2", "t5", "j2", "j3")) or rnd.random() < 0.2:
                 keep.append(x)
         cases = keep
     vlib.log("[c01] %d cases (%d in the space), %.0fs" % (len(cases), total, time.time() - t0))
@@ -302,7 +310,7 @@ def run(tier, seed):
         if errs[idx] == "timeout":
             p = dict(p, whys=["hang"])
         V.violation(features(x, p),
-                    {"case": {k: x[k] for k in ("k", "f", "v", "fam", "st", "s")}, "whys": p["whys"], "first_differing_record": p.get("rec"),
+                    {"classes": sorted({t for r in x["s"] for kv in r for c in kv for t in c} - PLAIN), "case": {k: x[k] for k in ("k", "f", "v", "fam", "st", "s")}, "whys": p["whys"], "first_differing_record": p.get("rec"),
                      "input_text": render(x["text"], x["f"], x["v"]) if x["k"] == "tx" else json_input(x["s"], x["f"], x["v"]),
                      "real_text": render([t for t in o["text"] if not t.startswith("?")], x["f"], x["v"]) if x["k"] == "rt" else None,
                      "read_back": o["back"], "flags": FLAGS[(x["f"], x["v"])], "stderr": errs[idx]})
@@ -364,7 +372,8 @@ def run(tier, seed):
         "cells enter mlr as JSON strings (--ijsonl) and are observed as JSON Lines (--ojsonl --jvquoteall) parsed by Python's json; "
         "values are strings (number formatting: C03/C06); nested values, YAML, DKVPX, DCF, recutils, ASV/USV, multi-character "
         "separators, --lazy-quotes, --csv-trim-leading-space, comments flags and duplicate header names are not covered",
-        "quick tier runs a seeded 40% of the key/value-only families (all of the rest); thorough runs the whole space",
+        "quick tier: every probe of <= 1 token and every wide/heterogeneous stream, a seeded 13-20% of the two-token probes; "
+        "thorough: the whole space, with three-token probes over the six core classes of each format",
     ], len(V.violations))
     return rc
 
